@@ -521,6 +521,8 @@ def run_real_schedule(shim, init, n, schedule, model, held_age=None, cmds=None):
                 maxholders = max(maxholders, len(holding))
             obs["maxholders_settled"] = maxholders
             obs["outcome_settled"] = {i: outcome_of(i) for i in range(n)}
+            # Python-side waits that gave up on a live process: such a run is not a valid observation of the schedule
+            obs["sched_timeouts"] = [list(t) for t in getattr(s, "timeouts", [])]
             res = s.run_schedule([], then_free=True)
             obs["rc"] = {i: res[f"P{i}"].rc for i in range(n)}
         obs["lock_gone_at_end"] = lock_text(ws) is None
@@ -580,10 +582,17 @@ def real_schedules(ctx):
         want = {i: classify_model_pc(pc) for i, pc in model["pcs"].items()}
         ctx.cov["disagreements_checked"] += 1
         agree, obs = False, None
-        for attempt in range(3):
+        attempt, invalid = 0, 0
+        while attempt < 3:
             # the scheduler talks to the processes through files and polls: on a heavily loaded machine a step can
             # time out; a disagreement counts only if it reproduces three times in a row
             obs = run_real_schedule(shim, init if init in INITS else "absent", n, sched, model, held_age=held_age, cmds=cmds)
+            if obs["sched_timeouts"] and invalid < 5 and max(obs["maxholders"], obs.get("maxholders_settled", 0)) < 2:
+                # the scheduler lost track of a process (machine overloaded): run the schedule again, uncounted
+                invalid += 1
+                ctx.count("real:invalid-run(timeout)")
+                continue
+            attempt += 1
             agree = (obs["mismatch"] is None and obs["outcome"] == want
                      and obs["cell"] == model_cell_owner(model["cell"]) and obs["maxholders"] == int(model["maxholders"]))
             # oracle, independent of the model, on every attempt
@@ -599,7 +608,7 @@ def real_schedules(ctx):
                 bad.append("panic")
             if bad:
                 covered = agree and bool(expect_findings) and all(ctx.known(f) for f in expect_findings)
-                if not covered and (agree or attempt == 2 or "two-holders" in bad or "panic" in bad):
+                if not covered and (agree or attempt == 3 or "two-holders" in bad or "panic" in bad):
                     ctx.violation("schedule", case, expected="at most one holder; lock gone; nobody blocked or crashed",
                                   observed=obs, model_prediction=mline,
                                   note="real renamify processes driven by the fsshim scheduler: " + ", ".join(bad))
